@@ -381,84 +381,146 @@ fn binary_case(cx: &mut CaseCtx, input: Input) -> CaseResult {
     dir.write("a.slice", b"module M\nstruct S { a: int32 }\n");
     let want_reject = u.arbitrary::<u8>().unwrap_or(0) < 60;
     let g0 = dir.install_generator("gen0", "");
-    let g1 = dir.install_generator("gen1", "");
+    let gens = [dir.install_generator("gen1", ""), dir.install_generator("gen2", "")];
     let mut args = vec![os("a.slice"), os("--generator=./gen0")];
-    let mut g = gen_spec(&mut u);
-    // argv cannot carry NUL; paths are fixed to the installed generator
-    g.args.retain(|(k, v)| !k.contains('\0') && !v.contains('\0'));
-    let mut spec = String::from(" ./gen1 ");
-    for (k, v) in &g.args {
-        spec.push(',');
-        spec.push_str(&escape_component(k));
-        spec.push('=');
-        spec.push_str(&escape_component(v));
+    // 1..3 specifications after the argument-less gen0; each names gen1 or gen2, so that the same
+    // path can be given twice in a row or with another one in between ("repeated -G options")
+    let nspecs = if want_reject { 1 } else { 1 + (u.arbitrary::<u8>().unwrap_or(0) % 3) as usize };
+    let mut specs: Vec<(usize, String, Vec<(String, String)>)> = Vec::new();
+    for _ in 0..nspecs {
+        let which = (u.arbitrary::<u8>().unwrap_or(0) % 2) as usize;
+        let mut g = gen_spec(&mut u);
+        // argv cannot carry NUL; paths are fixed to the installed generators
+        g.args.retain(|(k, v)| !k.contains('\0') && !v.contains('\0'));
+        // now and then a long value or many pairs ("any list of key/value arguments")
+        match u.arbitrary::<u8>().unwrap_or(0) % 8 {
+            0 => {
+                let n = [300usize, 1100, 2100, 5000][(u.arbitrary::<u8>().unwrap_or(0) % 4) as usize];
+                g.args.push(("long".into(), "v,=é".repeat(n / 5)));
+                cx.label("binary-long-value");
+            }
+            1 => {
+                for k in 0..48 {
+                    g.args.push((format!("key{k}"), format!("value number {k} of many")));
+                }
+                cx.label("binary-many-arguments");
+            }
+            _ => {}
+        }
+        let mut spec = format!(" ./gen{} ", which + 1);
+        for (k, v) in &g.args {
+            spec.push(',');
+            spec.push_str(&escape_component(k));
+            spec.push('=');
+            spec.push_str(&escape_component(v));
+        }
+        let expected: Vec<(String, String)> = g.args.iter().map(|(k, v)| (k.trim().to_owned(), v.trim().to_owned())).collect();
+        specs.push((which, spec, expected));
     }
-    let expected: Vec<(String, String)> = g.args.iter().map(|(k, v)| (k.trim().to_owned(), v.trim().to_owned())).collect();
     if want_reject {
         const BAD: [&str; 6] = ["", ",", " ", "./gen1,=v", "./gen1,k=v=w", "./gen1,,k=v"];
-        spec = BAD[(u.arbitrary::<u8>().unwrap_or(0) as usize * BAD.len()) >> 8].to_owned();
+        specs[0].1 = BAD[(u.arbitrary::<u8>().unwrap_or(0) as usize * BAD.len()) >> 8].to_owned();
     }
     cx.nontrivial = true;
     cx.label(if want_reject { "binary-reject" } else { "binary-accept" });
-    cx.sample_with(|| json!({"argv": ["a.slice", "--generator=./gen0", format!("--generator={spec}")]}));
-    if spec.is_empty() {
-        // `--generator=` is refused by clap itself; the two-entry form reaches the value parser
-        args.push(os("-G"));
-        args.push(os(""));
-    } else {
-        args.push(os(&format!("--generator={spec}")));
+    let same_path_twice_in_a_row = specs.windows(2).any(|w| w[0].0 == w[1].0);
+    cx.label_if(same_path_twice_in_a_row, "binary-same-generator-twice-in-a-row");
+    cx.label_if(specs.len() == 3 && specs[0].0 == specs[2].0 && specs[0].0 != specs[1].0, "binary-same-generator-with-another-between");
+    cx.sample_with(|| {
+        let mut argv = vec!["a.slice".to_owned(), "--generator=./gen0".to_owned()];
+        argv.extend(specs.iter().map(|s| format!("--generator={}", if s.1.len() > 300 { format!("{}... ({} bytes)", s.1.chars().take(120).collect::<String>(), s.1.len()) } else { s.1.clone() })));
+        json!({ "argv": argv })
+    });
+    for (_, spec, _) in &specs {
+        if spec.is_empty() {
+            // `--generator=` is refused by clap itself; the two-entry form reaches the value parser
+            args.push(os("-G"));
+            args.push(os(""));
+        } else {
+            args.push(os(&format!("--generator={spec}")));
+        }
     }
     let r = proc::run_slicec(&dir.path, &args, &[], Duration::from_secs(20));
+    let shown = format!("{:?}", args.iter().map(|a| { let t = a.to_string_lossy(); if t.len() > 200 { format!("{}...({} bytes)", t.chars().take(100).collect::<String>(), t.len()) } else { t.into_owned() } }).collect::<Vec<_>>());
     if let Some(c) = r.crashed() {
-        fail!(format!("binary/{c}"), "argv {args:?}: slicec crashed: {}", r.stderr_text());
+        fail!(format!("binary/{c}"), "argv {shown}: slicec crashed: {}", r.stderr_text());
     }
     if want_reject {
         check!(
             r.code == Some(2),
             "binary/reject-exit-status",
-            "argv {args:?}: expected usage error (exit 2), got {:?}; stderr {}",
+            "argv {shown}: expected usage error (exit 2), got {:?}; stderr {}",
             r.code,
             r.stderr_text()
         );
         check!(
             r.stderr_text().contains("error:"),
             "binary/reject-no-usage-text",
-            "argv {args:?}: no error text on stderr: {}",
+            "argv {shown}: no error text on stderr: {}",
             r.stderr_text()
         );
         check!(
-            dir.generator_log_lines(&g0) == 0 && dir.generator_log_lines(&g1) == 0,
+            dir.generator_log_lines(&g0) == 0 && gens.iter().all(|g| dir.generator_log_lines(g) == 0),
             "binary/generator-ran-after-usage-error",
-            "argv {args:?}: a generator was started although the command line was rejected"
+            "argv {shown}: a generator was started although the command line was rejected"
         );
         return Ok(());
     }
     check!(
         r.code == Some(0),
         "binary/accept-exit-status",
-        "argv {args:?}: expected exit 0, got {:?}; stderr {}",
+        "argv {shown}: expected exit 0, got {:?}; stderr {}",
         r.code,
         r.stderr_text()
     );
-    let s0 = dir.generator_stdin(&g0);
-    let s1 = dir.generator_stdin(&g1);
-    let (Some(s0), Some(s1)) = (s0, s1) else {
-        fail!("binary/generator-not-run", "argv {args:?}: a generator did not run; stderr {}", r.stderr_text());
+    let Some(s0) = dir.generator_stdin(&g0) else {
+        fail!("binary/generator-not-run", "argv {shown}: gen0 did not run; stderr {}", r.stderr_text());
     };
     // gen0 has no arguments: its stdin is request ++ [0x00]
-    check!(
-        s0.last() == Some(&0) && s1.len() >= s0.len() - 1 && s1[..s0.len() - 1] == s0[..s0.len() - 1],
-        "binary/request-prefix-differs",
-        "argv {args:?}: generators did not receive the same request"
-    );
-    let tail = &s1[s0.len() - 1..];
-    let got = decode_arguments(tail);
-    check!(
-        got.as_ref() == Some(&expected),
-        "binary/arguments-mismatch",
-        "argv {args:?}\n expected {expected:?}\n received {got:?} (raw {})",
-        to_hex(tail)
-    );
+    check!(s0.last() == Some(&0), "binary/request-prefix-differs", "argv {shown}: gen0's input does not end in an empty argument list");
+    // every specification starts its generator once, in the order given, with its own arguments
+    for (w, g) in gens.iter().enumerate() {
+        let want = specs.iter().filter(|s| s.0 == w).count();
+        let ran = dir.generator_log_lines(g);
+        check!(
+            ran == want,
+            "binary/generator-runs",
+            "argv {shown}: gen{} was named by {want} specification(s) but ran {ran} time(s); stderr {}",
+            w + 1,
+            r.stderr_text()
+        );
+    }
+    // Generators run in parallel, so which invocation of a generator belongs to which specification is
+    // not observable: the argument lists its invocations read must be those written for it, as a multiset.
+    for (w, g) in gens.iter().enumerate() {
+        let mut want: Vec<&Vec<(String, String)>> = specs.iter().filter(|s| s.0 == w).map(|s| &s.2).collect();
+        for k in 1..=want.len() {
+            let Some(s1) = dir.generator_stdin_nth(g, k) else {
+                fail!("binary/generator-not-run", "argv {shown}: invocation {k} of gen{} left no input; stderr {}", w + 1, r.stderr_text());
+            };
+            check!(
+                s1.len() >= s0.len() - 1 && s1[..s0.len() - 1] == s0[..s0.len() - 1],
+                "binary/request-prefix-differs",
+                "argv {shown}: generators did not receive the same request"
+            );
+            let tail = &s1[s0.len() - 1..];
+            let got = decode_arguments(tail);
+            let pos = got.as_ref().and_then(|g| want.iter().position(|e| *e == g));
+            match pos {
+                Some(i) => {
+                    want.remove(i);
+                }
+                None => fail!(
+                    "binary/arguments-mismatch",
+                    "argv {shown}\n an invocation of gen{} received {:?}... ({} bytes), which is none of the argument lists written for it (still unmatched: {:?})",
+                    w + 1,
+                    got.as_ref().map(|g| g.iter().take(4).collect::<Vec<_>>()),
+                    tail.len(),
+                    want.iter().map(|e| e.iter().take(4).collect::<Vec<_>>()).collect::<Vec<_>>()
+                ),
+            }
+        }
+    }
     Ok(())
 }
 
@@ -467,7 +529,7 @@ impl Check for C19 {
         "C19"
     }
     fn rule(&self) -> String {
-        "families: exhaustive = every string of length <= N (5 quick, 6 thorough) over {a,space,',','=','\\'} x 3 argv spellings, compared with a reference parser written from the statement (accept/reject and values); roundtrip = proptest choice sequences -> 1..3 specs of random Unicode path + 0..6 pairs rendered through the escaping function with random white space / trailing comma / omitted '=' for empty values, parsed back in-process; binary = specs given to the real slicec binary, argument section of the fake generator's stdin decoded. Non-trivial = the spec contains a separator, an escape or a backslash; distinct by (family, input)".into()
+        "families: exhaustive = every string of length <= N (5 quick, 6 thorough) over {a,space,',','=','\\'} x 3 argv spellings, compared with a reference parser written from the statement (accept/reject and values); roundtrip = proptest choice sequences -> 1..3 specs of random Unicode path + 0..6 pairs rendered through the escaping function with random white space / trailing comma / omitted '=' for empty values, parsed back in-process; binary = an argument-less generator followed by 1..3 specs naming one of two generators (so that the same path is given twice in a row, or with the other one in between), now and then with a value of up to 5000 characters or 48 extra pairs, given to the real slicec binary: every specification starts its generator once, in order, and the argument section each invocation reads decodes to its own pairs. Non-trivial = the spec contains a separator, an escape or a backslash; distinct by (family, input)".into()
     }
     fn assumptions(&self) -> Vec<String> {
         vec![
@@ -486,6 +548,10 @@ impl Check for C19 {
             "non-ascii",
             "binary-accept",
             "binary-reject",
+            "binary-same-generator-twice-in-a-row",
+            "binary-same-generator-with-another-between",
+            "binary-long-value",
+            "binary-many-arguments",
             "empty-value",
         ]
     }
@@ -502,7 +568,7 @@ impl Check for C19 {
         vec![
             Family::enumerate("exhaustive", total, 1, move |cx, i| exhaustive_case(cx, i, max_len)),
             Family::bytes("roundtrip", 160, tier.pick(20_000, 400_000), roundtrip_case),
-            Family::bytes("binary", 96, tier.pick(60, 1500), binary_case),
+            Family::bytes("binary", 256, tier.pick(80, 1500), binary_case),
             Family::replay_only("direct", |cx, i| {
                 // regression inputs: the bytes are the spec itself, given as `-G <spec>`
                 let spec = String::from_utf8_lossy(i.bytes()).into_owned();
